@@ -39,6 +39,11 @@ def kernel(check):
                          words='no repeat, forward: time since delay exactly the cycle duration => position exactly 1.0'))
     check.add(Obligation('C02.K-ended-terminal', S.valid() + [z3.Not(S.panic), S.tag == 2, z3.Not(z3.fpEQ(S.pos, z3.If(S.rev_in, K.ZERO, K.ONE)))], S.inputs, timeout=to,
                          words='Ended(p): p is exactly 1.0 (0.0 when reversing) for every time past the end: the terminal value no longer changes'))
+    # "at any time up to the delay the 0% value is produced": strictly before the delay the time scale reports NotStarted, and AT the
+    # delay it reports position exactly 0% on the first forward pass (never the held 100% of a previous cycle)
+    check.add(Obligation('C02.K-up-to-the-delay-is-0%', S.valid() + [z3.Not(S.panic), z3.Not(z3.fpIsNegative(S.t))] + bound + [z3.fpLEQ(S.t, S.delay),
+                         z3.Not(z3.Or(S.tag == 0, z3.And(S.tag == 1, z3.fpIsZero(S.pos), z3.Not(S.rep), z3.Not(S.rev))))], S.inputs, timeout=to,
+                         words='t <= delay  =>  NotStarted, or (t == delay) Active at exactly 0%, not repeating, not reversing'))
     K.past_end_obligations(check, S, 'C02', bound, to)
     check.run()
     for ob in check.obligations:
